@@ -368,6 +368,12 @@ func RunCrash(s *Script, ks []int, moveOn int, dropLost bool, twin *Twin) (*Cras
 		}
 		r.Stale = best.Hash != *r.N.Tip().Hash()
 		if blk := s.byHash()[best.Hash]; blk != nil {
+			if best.Hash != r.RecTip {
+				// Start (as repaired) found the stored tip replaced at the same or a lower height
+				// and sent the node's best block through processConnectedBlock
+				r.emit("P %d ok", s.Gen.CfBlockID(blk))
+				r.RecTip = best.Hash
+			}
 			// (every block Start connected on the way is an ancestor of the tip it reached)
 			r.markSeen(blk)
 		}
